@@ -64,8 +64,8 @@ pub fn canon(sim: &Sim) -> String {
         for (i, c) in w.conns.iter().enumerate() {
             let _ = write!(
                 s,
-                "|c{i}:{}:{}{}{}{}:h{}:x{}:p{}:n{}",
-                c.origin, c.h2 as u8, c.open as u8, c.busy as u8, c.upgraded as u8, c.handles, c.holders, c.ever_pooled as u8, c.handoffs.min(1)
+                "|c{i}:{}:{}{}{}{}:h{}:x{}:p{}:n{}:w{}",
+                c.origin, c.h2 as u8, c.open as u8, c.busy as u8, c.upgraded as u8, c.handles, c.holders, c.ever_pooled as u8, c.handoffs.min(1), c.ready_wakers.len()
             );
             // order facts the C05 oracle depends on
             for (ri, r) in sim.reqs.iter().enumerate() {
